@@ -10,7 +10,7 @@ func VerifC04_Terminator() {
 	mode := vInt("mode", 0, 2)
 	um := vInt("um", 0, 2)
 	ro := vBool("ro")
-	ctx := vInt("ctx", 0, 13)
+	ctx := vInt("ctx", 0, 15)
 	t1, t2 := vString("t1"), vString("t2")
 	x := vString("x")
 
@@ -68,6 +68,12 @@ func VerifC04_Terminator() {
 		pre = []string{"--fopt"}
 	case 13:
 		pre = []string{"--flist", "1.5"}
+	case 14:
+		// one extra value already taken, room for one more
+		vAssume(!isOptionLooking(x))
+		pre = []string{"--list", x, "second"}
+	case 15:
+		pre = []string{"--ilist", "7", "8"}
 	}
 	vPhase("run")
 	args := cat(pre, []string{"--", t1, t2})
@@ -103,11 +109,15 @@ func VerifC04_Terminator() {
 	}
 	if ctx == 5 || ctx == 6 {
 		vAssert("list", eqStrs(*list, []string{x}))
+	} else if ctx == 14 {
+		vAssert("list", eqStrs(*list, []string{x, "second"}))
 	} else {
 		vAssert("list", len(*list) == 0)
 	}
 	if ctx == 9 {
 		vAssert("ilist", eqInts(*ilist, []int{7}))
+	} else if ctx == 15 {
+		vAssert("ilist", eqInts(*ilist, []int{7, 8}))
 	} else {
 		vAssert("ilist", len(*ilist) == 0)
 	}
